@@ -111,6 +111,8 @@ def run(chk) -> None:
     chk.rule("R30f", "in the slicer the head of the source-only stack is compared with the patch only after the source-only slices before the patch have been flushed: the flush loop precedes the equality pop in every iteration")
     _r30e(chk, repo)
     _r30f(chk, repo)
+    chk.rule("R30j", "in the slicer every source-only slice that STARTS before the patch is flushed ahead of it: the flush loop's test compares the start of the stack's head (source_idx / source_slice().start) strictly (<) with the patch's source start -- so a patch that begins inside a tag or comment meets a cursor beyond its start and is skipped by the R30c guard instead of being cut into the tag")
+    _r30j(chk, repo)
     chk.rule("R30g", "two patches are duplicates exactly when they make the same edit: FixPatch.dedupe_tuple() is built from the source range and the replacement text and nothing else (the identity _patches_conflict uses for same-range patches)")
     chk.rule("R30h", "the slicer drops the head of the source-only stack whenever it covers exactly the range of the patch: the equality pop is conditioned on the stack being non-empty and that equality only")
     _r30g(chk, repo)
@@ -277,6 +279,50 @@ def _r30e(chk, repo) -> None:
         )
     chk.count("R30e.same_range_returns", n)
     chk.floor("R30e.same_range_returns", 1)
+
+
+def _r30j(chk, repo) -> None:
+    from ..cfg import atoms as _atoms
+
+    f = repo.fn(LFILE, "LintedFile._slice_source_file_using_patches")
+    cfg = cfg_of(f)
+    n = 0
+
+    def head_start(e, stack) -> bool:
+        # <stack>[0].source_idx  |  <stack>[0].source_slice().start
+        if isinstance(e, ast.Attribute) and e.attr == "source_idx":
+            b = e.value
+        elif isinstance(e, ast.Attribute) and e.attr == "start" and isinstance(e.value, ast.Call) and last_attr(e.value) == "source_slice" and isinstance(e.value.func, ast.Attribute):
+            b = e.value.func.value
+        else:
+            return False
+        return isinstance(b, ast.Subscript) and isinstance(b.value, ast.Name) and b.value.id == stack and isinstance(b.slice, ast.Constant) and b.slice.value == 0
+
+    def patch_start(e, var) -> bool:
+        return isinstance(e, ast.Attribute) and e.attr == "start" and isinstance(e.value, ast.Attribute) and e.value.attr == "source_slice" and isinstance(e.value.value, ast.Name) and e.value.value.id == var
+
+    for l in [l for l in walk_local(f) if isinstance(l, ast.For) and isinstance(l.target, ast.Name)]:
+        for w in [w for w in ast.walk(l) if isinstance(w, ast.While)]:
+            pops = [c for c in ast.walk(w) if isinstance(c, ast.Call) and last_attr(c) == "pop" and isinstance(c.func, ast.Attribute) and isinstance(c.func.value, ast.Name)]
+            if not pops:
+                continue
+            stack = pops[0].func.value.id
+            n += 1
+            ok = False
+            for e, pol in _atoms(expanded(cfg, w.test, w), True):
+                if not (pol and isinstance(e, ast.Compare) and len(e.ops) == 1):
+                    continue
+                a, b, op = e.left, e.comparators[0], e.ops[0]
+                if (isinstance(op, ast.Lt) and head_start(a, stack) and patch_start(b, l.target.id)) or (isinstance(op, ast.Gt) and head_start(b, stack) and patch_start(a, l.target.id)):
+                    ok = True
+            chk.require(
+                ok, "R30j", w,
+                f"the slicer's flush loop over `{stack}` is not conditioned on `{stack}[0]` STARTING strictly before the patch (`{short(w.test, 90)}`): a tag or comment that begins before "
+                "the patch and runs past its start stays on the stack, the cursor stays before the patch, the overlap guard never fires, and the tag's prefix is emitted twice with the edit cut into the tag",
+                detail="slicer: flush while head.start < patch.start", construct=f"{LFILE}::LintedFile._slice_source_file_using_patches",
+            )
+    chk.count("R30j.flush_loops", n)
+    chk.floor("R30j.flush_loops", 1)
 
 
 def _r30f(chk, repo) -> None:
@@ -838,6 +884,30 @@ def _r30d(chk, repo) -> None:
 from ..selftest import Variant  # noqa: E402
 
 VARIANTS = [
+    Variant(
+        "r30j-flush-on-head-end", LFILE,
+        "                and source_only_slices[0].source_idx < patch.source_slice.start\n",
+        "                and source_only_slices[0].end_source_idx() <= patch.source_slice.start\n",
+        "R30j", "_slice_source_file_using_patches", "seeded C30-9",
+    ),
+    Variant(
+        "r30j-flush-not-strict", LFILE,
+        "                and source_only_slices[0].source_idx < patch.source_slice.start\n",
+        "                and source_only_slices[0].source_idx <= patch.source_slice.start\n",
+        "R30j", "_slice_source_file_using_patches", "a tag at the patch's own start is flushed before the equality pop sees it",
+    ),
+    Variant(
+        "quiet-r30j-start-through-source-slice", LFILE,
+        "                and source_only_slices[0].source_idx < patch.source_slice.start\n",
+        "                and patch.source_slice.start > source_only_slices[0].source_slice().start\n",
+        "QUIET", None, "R30j: operands swapped, start read from source_slice()",
+    ),
+    Variant(
+        "quiet-r30j-patch-start-in-a-local", LFILE,
+        "            while (\n                source_only_slices\n                and source_only_slices[0].source_idx < patch.source_slice.start\n            ):\n",
+        "            patch_start = patch.source_slice.start\n            while source_only_slices and source_only_slices[0].source_idx < patch_start:\n",
+        "QUIET", None, "R30j: patch start through a local",
+    ),
     Variant(
         "overlap-test-assumes-the-second-starts-later", PATCH,
         "    return max(first_start, second_start) < min(first_stop, second_stop)\n",
